@@ -20,6 +20,15 @@ for f in sys.argv[1:]:
         r=json.load(open(g))
         print("==", g, r['cls'], "x%d"%r['count'])
         rec=r['record']
+        if rec and rec.get('k')=='p':
+            print("  tree:", st(rec['tree']))
+            for s_ in rec['steps']:
+                print("  call:", call(s_['c']))
+                for side in ('mem','std'):
+                    x=s_[side]
+                    print("   %s -> %s %s" % (side, x['r']['o'], json.dumps(x['r']['v'])[:300] if x['r']['o']=='ok' else ''))
+                    if x['same']=='f': print("       post:", st(x['post']))
+            continue
         if not rec or 'pre' not in rec: print(rec); continue
         print("  pre :", st(rec['pre']))
         for s in rec['steps']:
